@@ -139,7 +139,13 @@ def gen(rng, tier):
             nsrc = rng.choice([1, 1, 2, 3])
             sources = ["s%d" % i for i in range(nsrc)]
             lines = ["cfg rate %s cap=%s" % (rc.fmt_rates(rates), "default" if rng.random() < 0.2 else str(nsrc + rng.choice([0, 1])))]
-            body = rc.gen_source_ops(rng, rates, sources, rng.randint(20, 140), allow_retry=False, allow_rates=rng.random() < 0.1)
+            stock = nsrc > 1 and rng.random() < 0.25     # sources told apart by the stock client.ip extractor
+            if stock:
+                sources = rc.clientip_sources(rng, nsrc)
+                lines[0] += " ext=clientip"
+            body = rc.gen_source_ops(rng, rates, sources, rng.randint(20, 140), allow_retry=False, allow_rates=(not stock) and rng.random() < 0.1)
+            if stock:
+                body = rc.amount_one(body)
             out = []
             for l in body:
                 out.append(l)
